@@ -66,19 +66,30 @@ Definition fstate : Type := (nat * M * M)%type.
 
 (* [inv] is the solve oracle (m, C) |-> C^-1 : theorems assume only that what it returns is
    an inverse; the executable instance is the certificate-checked [inv_checked]. *)
+(* the same two formulas with every intermediate product evaluated once ([mat] is the identity
+   up to [meq]; it only forces evaluation under vm_compute, as the code's eager tensors do) *)
+Definition fant_mean_cache_staged (n m : nat) (U Q Cinv alpha rf : M) : M :=
+  let b := mat m 1 (fant_lower n m U Cinv alpha rf) in
+  vstack n (msub alpha (mmul m Q b)) b.
+Definition bordered_inv_staged (n m : nat) (Ainv Q P Cinv : M) : M :=
+  let X := mat m n (mmul m Cinv P) in
+  let W := mat n m (mmul m Q Cinv) in
+  blk n n (madd Ainv (mmul m Q X)) (mopp W) (mopp X) Cinv.
+
 Definition fantasy_step (inv : nat -> M -> option M) (KJ S r : M) (st : fstate) (m : nat)
   : option fstate :=
   let '(n, Ainv, alpha) := st in
   let A := train_covar KJ S in
-  let U := sub n 0 A in let Ut := sub 0 n A in let Sf := sub n n A in
+  let U := mat m n (sub n 0 A) in let Ut := mat n m (sub 0 n A) in let Sf := sub n n A in
   let Q := mat n m (fant_solve n Ainv Ut) in
+  let P := mat m n (mmul n U Ainv) in
   let C := mat m m (schur n U Q Sf) in
   match inv m C with
   | None => None
   | Some Cinv =>
       Some ((n + m)%nat,
-            mat (n + m) (n + m) (bordered_inv n m Ainv U Ut Cinv),
-            mat (n + m) 1 (fant_mean_cache n m U Q Cinv alpha (sub n 0 r)))
+            mat (n + m) (n + m) (bordered_inv_staged n m Ainv Q P Cinv),
+            mat (n + m) 1 (fant_mean_cache_staged n m U Q Cinv alpha (sub n 0 r)))
   end.
 
 Fixpoint fantasy_fold (inv : nat -> M -> option M) (KJ S r : M) (st : fstate) (ms : list nat)
@@ -156,6 +167,11 @@ Definition test_view (n Ntot : nat) (A : @M QcF) : @M QcF :=
 Definition test_view_vec (n Ntot : nat) (v : @M QcF) : @M QcF :=
   gather (fun i => if Nat.ltb i n then i else (Ntot + (i - n))%nat) (fun j => j) v.
 
+(* C01's post_cov with the solve evaluated once *)
+Definition post_cov_staged {K : Fld} (n t : nat) (KJ Ainv : M) : M :=
+  let V := mat n t (mmul n Ainv (mT (Ksx n KJ))) in
+  msub (Kss n KJ) (mmul n (Ksx n KJ) V).
+
 Definition ser_state (t Ntot : nat) (KJ muJ : @M QcF) (o : option (@fstate QcF)) : list Z :=
   match o with
   | None => [0%Z]
@@ -164,7 +180,7 @@ Definition ser_state (t Ntot : nat) (KJ muJ : @M QcF) (o : option (@fstate QcF))
       let muJn := mat (n + t) 1 (test_view_vec n Ntot muJ) in
       1%Z :: Z.of_nat n :: ser_mat n 1 alpha ++ ser_mat n n Ainv
           ++ ser_mat t 1 (post_mean_from_cache n KJn muJn alpha)
-          ++ ser_mat t t (post_cov n KJn Ainv)
+          ++ ser_mat t t (post_cov_staged n t KJn Ainv)
   end.
 
 Definition run_fantasy
